@@ -10,6 +10,10 @@ use specmodel::Mode;
 use std::sync::{Arc, Barrier};
 
 pub fn run(args: &Args) -> Report {
+    #[cfg(all(feature = "full", not(miri)))]
+    if args.get("pool-files") == Some("1") {
+        return crate::c18pool::run(args);
+    }
     let n: usize = args.get("nthreads").map(|v| v.parse().expect("nthreads")).unwrap_or(8);
     let per_thread: u64 = args.get("per-thread").map(|v| v.parse().expect("per-thread")).unwrap_or(6);
     let small = args.get("miri-small") == Some("1");
